@@ -240,26 +240,39 @@ def iterproperties (d : Doc) (start : Pos) (md : Option Int) (f : PropT → Bool
 def itervalues (d : Doc) (start : Pos) (md : Option Int) (f : List Int → Bool) : List (Pos × Nat) :=
   iterproperties d start md (fun pr => f pr.vals)
 
-/-! ## _matches / find / find_related -/
+/-! ## _matches / find / find_related
+
+`lw` stands for `str.lower`. The definitions (and every theorem about them) take it as a
+parameter: nothing in `_matches` / `find` / `find_related` depends on *how* the standard library
+maps a string to lower case, only on the fact that the requested type and the type of the
+Section go through the **same** function (`type.lower()` in `find` / `find_related`,
+`obj.type.lower()` in `_matches`). The driver instantiates `lw` with `Py.lower` (ASCII),
+extended by the table of `str.lower` results that the harness sends for the strings of a case
+that contain letters outside ASCII (sharp s, dotted capital I, final sigma, ...). -/
 
 /-- `_matches(obj, key, otype, include_subtype)`; `obj = none` is the Document, which has
     neither `name` nor `type`. `otype` is already lower-cased by the caller. -/
-def matchesObj (obj : Option Sec) (key otype : Option Str) (includeSubtype : Bool) : Bool :=
+def matchesObj (lw : Str → Str) (obj : Option Sec) (key otype : Option Str) (includeSubtype : Bool) : Bool :=
   let nameMatch := match key, obj with
     | none, _ => true
     | some k, some s => s.name = k
     | some _, none => false
   let exact := match otype, obj with
     | none, _ => true
-    | some t, some s => Py.lower s.type = t
+    | some t, some s => lw s.type = t
     | some _, none => false
   if !includeSubtype then nameMatch && exact
   else
     let sub := match otype, obj with
       | none, _ => true
-      | some t, some s => (Py.splitOn '/' (Py.lower s.type)).dropLast.contains t
+      | some t, some s => (Py.splitOn '/' (lw s.type)).dropLast.contains t
       | some _, none => false
     nameMatch && (exact || sub)
+
+/-- `if type: type = type.lower()` at the top of `find` and `find_related`: `None` and the empty
+    string are falsy and stay as they are. -/
+def lowerReq (lw : Str → Str) (type : Option Str) : Option Str :=
+  type.map (fun t => if t = [] then t else lw t)
 
 inductive Found where
   | none
@@ -274,29 +287,29 @@ def Found.ofList (findAll : Bool) (l : List Pos) : Found :=
     | p :: _ => .one p
 
 /-- matching direct children, in order -/
-def findAllIn (p : Pos) (key otype : Option Str) (sub : Bool) : Nat → List Sec → List Pos
+def findAllIn (lw : Str → Str) (p : Pos) (key otype : Option Str) (sub : Bool) : Nat → List Sec → List Pos
   | _, [] => []
   | i, s :: r =>
-    (if matchesObj (some s) key otype sub then [p ++ [i]] else []) ++ findAllIn p key otype sub (i + 1) r
+    (if matchesObj lw (some s) key otype sub then [p ++ [i]] else []) ++ findAllIn lw p key otype sub (i + 1) r
 
 /-- `find(key, type, findAll, include_subtype)` on the node at `cur` -/
-def find (d : Doc) (cur : Pos) (key type : Option Str) (findAll sub : Bool) : Found :=
+def find (lw : Str → Str) (d : Doc) (cur : Pos) (key type : Option Str) (findAll sub : Bool) : Found :=
   match kidsAt d.secs cur with
-  | some l => Found.ofList findAll (findAllIn cur key (type.map Py.lower) sub 0 l)
+  | some l => Found.ofList findAll (findAllIn lw cur key (lowerReq lw type) sub 0 l)
   | Option.none => .none
 
 /-- the ancestors of `cur`, nearest first, ending with the Document `[]` -/
 def ancestors (p : Pos) : List Pos := (List.range p.length).reverse.map (fun k => p.take k)
 
 /-- every object `find_related(..., findAll=True)` collects, in order -/
-def findRelatedAll (d : Doc) (cur : Pos) (key type : Option Str)
+def findRelatedAll (lw : Str → Str) (d : Doc) (cur : Pos) (key type : Option Str)
     (children siblings parents recursive : Bool) : List Pos :=
-  let otype := type.map Py.lower
+  let otype := lowerReq lw type
   let cs :=
     if children then
       match kidsAt d.secs cur with
       | some l => ((preList l cur 0).filter (fun e =>
-          (recursive || e.1.length = cur.length + 1) && matchesObj (some e.2) key otype false)).map (·.1)
+          (recursive || e.1.length = cur.length + 1) && matchesObj lw (some e.2) key otype false)).map (·.1)
       | Option.none => []
     else []
   let ss :=
@@ -304,20 +317,20 @@ def findRelatedAll (d : Doc) (cur : Pos) (key type : Option Str)
       match parentOf cur with
       | some par =>
         match kidsAt d.secs par with
-        | some l => findAllIn par key (otype.map Py.lower) false 0 l
+        | some l => findAllIn lw par key (lowerReq lw otype) false 0 l
         | Option.none => []
       | Option.none => []
     else []
   let ps :=
     if parents then
       ((if recursive then ancestors cur else (ancestors cur).take 1).filter (fun a =>
-        matchesObj (match a with | [] => Option.none | _ => secAt d.secs a) key otype false))
+        matchesObj lw (match a with | [] => Option.none | _ => secAt d.secs a) key otype false))
     else []
   cs ++ ss ++ ps
 
 /-- `find_related(key, type, children, siblings, parents, recursive, findAll)` -/
-def findRelated (d : Doc) (cur : Pos) (key type : Option Str)
+def findRelated (lw : Str → Str) (d : Doc) (cur : Pos) (key type : Option Str)
     (children siblings parents recursive findAll : Bool) : Found :=
-  Found.ofList findAll (findRelatedAll d cur key type children siblings parents recursive)
+  Found.ofList findAll (findRelatedAll lw d cur key type children siblings parents recursive)
 
 end Path
